@@ -322,6 +322,9 @@ func runProtocol(kc *kernelCtx, blocks []*Block, only string, want map[string]bo
 	if on("C07") {
 		pc.p6Panics(only)
 	}
+	if on("C04") || on("C18") {
+		pc.p8Frames(only)
+	}
 	if on("C01") || on("C02") {
 		pc.f1Implementors()
 	}
